@@ -15,13 +15,28 @@ import (
 type (
 	WaitGroup = sync.WaitGroup
 	Once      = sync.Once
-	Pool      = sync.Pool
 	Map       = sync.Map
 	Cond      = sync.Cond
 	Locker    = sync.Locker
 )
 
 func NewCond(l Locker) *Cond { return sync.NewCond(l) }
+
+// Pool never retains anything: Get always builds a fresh object. A real sync.Pool is process-global state that
+// survives from one explored execution into the next (and depends on the garbage collector), which made the
+// out-of-order merge take different paths for the same schedule; executions must be replayable.
+type Pool struct {
+	New func() any
+}
+
+func (p *Pool) Get() any {
+	if p.New != nil {
+		return p.New()
+	}
+	return nil
+}
+
+func (p *Pool) Put(any) {}
 
 func OnceFunc(f func()) func()                                 { return sync.OnceFunc(f) }
 func OnceValue[T any](f func() T) func() T                     { return sync.OnceValue(f) }
